@@ -478,7 +478,7 @@ Lemma admit_sound : forall c sd salt payload rest e db name,
      secret_of c e db name s /\ body = expected md5 name s salt).
 Proof.
   intros c sd salt payload rest e db name H. unfold startup in H.
-  destruct (ident payload) as [n d| | |] eqn:Ei; try discriminate.
+  destruct (ident payload) as [n d| |] eqn:Ei; try discriminate.
   destruct (is_admin_db d) eqn:Ea; cbn [negb andb] in H.
   { destruct (admin_auth c); [discriminate|].
     destruct (admin_md5_cases c e n salt rest) as (_ & _ & [(b & t & _ & _ & Ho & _)|[(w & Ho & _)|(Ho & _)]]);
@@ -523,7 +523,7 @@ Lemma admin_sound : forall c sd salt payload rest e,
        body = pg_md5 md5 (admin_user c) (admin_password c) salt).
 Proof.
   intros c sd salt payload rest e H. unfold startup in H.
-  destruct (ident payload) as [n d| | |] eqn:Ei; try discriminate.
+  destruct (ident payload) as [n d| |] eqn:Ei; try discriminate.
   exists n, d. split; [reflexivity|].
   destruct (is_admin_db d) eqn:Ea; cbn [negb andb] in H.
   - split; [reflexivity|]. destruct (admin_auth c) eqn:Eauth; [left; reflexivity|].
@@ -551,7 +551,7 @@ Definition replies_ok (r : result) : Prop :=
 Lemma replies_ok_startup : forall c sd salt payload rest e, replies_ok (startup md5 chk c sd salt payload rest e).
 Proof.
   intros c sd salt payload rest e. unfold startup.
-  destruct (ident payload) as [n d| | |] eqn:Ei; try reflexivity.
+  destruct (ident payload) as [n d| |] eqn:Ei; try reflexivity.
   destruct (is_admin_db d) eqn:Ea; cbn [negb andb].
   { destruct (admin_auth c).
     - exists []. split; reflexivity.
@@ -657,7 +657,7 @@ Lemma events_startup : forall c sd salt payload rest e,
   end.
 Proof.
   intros c sd salt payload rest e r. subst r. unfold startup.
-  destruct (ident payload) as [n d| | |] eqn:Ei; try reflexivity.
+  destruct (ident payload) as [n d| |] eqn:Ei; try reflexivity.
   destruct (is_admin_db d) eqn:Ea; cbn [negb andb].
   { destruct (admin_auth c).
     - split; [constructor|reflexivity].
@@ -693,7 +693,7 @@ Proof.
     Forall (fun x => match x with EvClientBytes _ => False | EvAuthQuery d n | EvValidate d n => configured c d n end)
            (events (startup md5 chk c sd salt payload rest e))).
   { intros payload rest. pose proof (events_startup c sd salt payload rest e) as H. cbv zeta in H.
-    destruct (ident payload) as [n d| | |]; try (rewrite H; constructor).
+    destruct (ident payload) as [n d| |]; try (rewrite H; constructor).
     destruct H as [H _]. eapply Forall_impl; [|exact H].
     intros [d' n'|d' n'|b] Hx; cbn in Hx; try contradiction.
     - destruct Hx as (-> & -> & p & u & Hsv & _). eapply served_configured; eassumption.
